@@ -250,6 +250,25 @@ class Ctx:
         lim = limit_thorough if self.tier == "thorough" else limit_quick
         return lim - (time.time() - self.t0)
 
+    def guard(self, fn, what=None):
+        """run one self-contained piece of a check (typically: everything done with one generated document).  If the
+        library dies inside its own code with an internal error while the harness is using its public API there, the
+        piece is abandoned, the traceback is kept, and the run goes on with the next piece — so that an oracle can still
+        find a proper failing input elsewhere.  At the end such events are reported as a broken correspondence."""
+        try:
+            return fn()
+        except INTERNAL_ERRORS as e:
+            tb = traceback.extract_tb(e.__traceback__)
+            inner = tb[-1].filename if tb else ""
+            if not inner.startswith(os.path.abspath(REPO) + os.sep):
+                raise
+            self.count("library_died_during_harness_use")
+            if not any(m["op"] == "harness-use-of-public-api" for m in self.mismatches):
+                self.mismatch("harness-use-of-public-api", {"exception": type(e).__name__, "message": str(e)[:300], "context": what,
+                                                            "traceback": traceback.format_exc()[-3000:]},
+                              "the library call returns", "the library raised inside its own code")
+            return None
+
     # -- violations
     def violation(self, kind, what, replay):
         """a concrete failing input against the real code (or a broken obligation w/o witness)"""
